@@ -22,7 +22,8 @@ ASSUMPTIONS = ['in log scale a non-positive lower limit is replaced as documente
 CHUNK = 2
 
 RES = [256, 1000, 1024, 4096, 65536, 262144]
-STATES = ['raw', 'rfi-lin', 'rfi-log4', 'rfi-log2.5-0', 'mef', 'float-neg', 'shifted']      # 'shifted': range starting below zero (linear scale only)
+LOWLOG = {'rfi-log4-0.01': (4.0, 0.01), 'rfi-log3-0.5': (3.0, 0.5), 'rfi-log5-0.1': (5.0, 0.1)}     # log amplifiers whose lowest value lies between 0 and 1
+STATES = ['raw', 'rfi-lin', 'rfi-log4', 'rfi-log2.5-0', 'mef', 'float-neg', 'shifted'] + sorted(LOWLOG) + ['mef-low']      # 'shifted': range starting below zero (linear scale only)
 
 
 def make(res3, state):
@@ -41,7 +42,9 @@ def make(res3, state):
         d = FlowCal.io.FCSData(p)
         d._c19_min = [min(r[j] for r in ev) for j in range(3)]
         return d, [lambda x: x] * 3
-    pne = {'raw': '0,0', 'rfi-lin': '0,0', 'rfi-log4': '4,1', 'rfi-log2.5-0': '2.5,0', 'mef': '4,1', 'shifted': '0,0'}[state]
+    pne = {'raw': '0,0', 'rfi-lin': '0,0', 'rfi-log4': '4,1', 'rfi-log2.5-0': '2.5,0', 'mef': '4,1', 'shifted': '0,0', 'mef-low': '4,1'}.get(state)
+    if state in LOWLOG:
+        pne = '%r,%r' % LOWLOG[state]
     events = [[0, 0, 0], [1, 1, 1]] + [[r - 1 for r in res3]] + [[r // 2 for r in res3]]
     extra = [('$P%dG' % (j + 1), g) for j, g in enumerate(['2.0', '0.5', '4.0'])] if state == 'rfi-lin' else []
     bits = [16 if r <= 65536 else 32 for r in res3]
@@ -56,16 +59,20 @@ def make(res3, state):
         d = FlowCal.transform.to_rfi(d)
         if state == 'rfi-lin':
             fns = [lambda x, g=g: x / g for g in (2.0, 0.5, 4.0)]
-        elif state in ('rfi-log4', 'mef'):
+        elif state in ('rfi-log4', 'mef', 'mef-low'):
             fns = [lambda x, r=r: 1.0 * 10 ** (4.0 / r * x) for r in res3]
+        elif state in LOWLOG:
+            fns = [lambda x, r=r, a=LOWLOG[state]: a[1] * 10 ** (a[0] / r * x) for r in res3]
         else:
             fns = [lambda x, r=r: 1.0 * 10 ** (2.5 / r * x) for r in res3]
     if state == 'shifted':
         # background subtraction: every value and both range limits move down by 100.25
         d = FlowCal.transform.transform(d, [0, 1, 2], lambda x: x - 100.25)
         fns = [lambda x: x - 100.25] * 3
-    if state == 'mef':
-        scs = [lambda x, m=m, b=b: np.sign(x) * np.exp(b) * (np.abs(x) ** m) for m, b in ((1.05, 2.0), (0.95, 3.5), (1.2, 0.5))]
+    if state in ('mef', 'mef-low'):
+        # ('mef-low': standard curves that put the lowest channel value between 0 and 1 MEF)
+        scs = [lambda x, m=m, b=b: np.sign(x) * np.exp(b) * (np.abs(x) ** m) for m, b in (((1.05, 2.0), (0.95, 3.5), (1.2, 0.5)) if state == 'mef' else
+                                                                                      ((1.05, -1.4), (0.95, -0.7), (1.2, -3.0)))]
         d = FlowCal.transform.to_mef(d, [0, 1, 2], scs, [0, 1, 2])
         f0 = list(fns)
         fns = [lambda x, f=f, sc=sc: sc(f(x)) for f, sc in zip(f0, scs)]
@@ -306,7 +313,7 @@ def run_case(c):
                         if bad:
                             res.violation(sig + ':grid', '%s: edge %d is %r, the image of the uniform display grid is %r' % (what, bad[0], float(bad[1]), bad[2]), one)
                             continue
-                    if nb is None and ((scale == 'linear' and st in ('raw', 'rfi-lin')) or (scale == 'log' and st in ('rfi-log4', 'rfi-log2.5-0'))):
+                    if nb is None and ((scale == 'linear' and st in ('raw', 'rfi-lin')) or (scale == 'log' and st in ('rfi-log4', 'rfi-log2.5-0') + tuple(LOWLOG))):
                         # each representable value is the centre of its own bin
                         if scale == 'linear':
                             centres = 0.5 * (e[:-1] + e[1:])
